@@ -71,6 +71,10 @@ def mutators():
         sh.rebinding += 1
     M["parameters="] = set_params
 
+    def set_params_dict(m, sh):
+        sh.rebinding += 1
+    M["parameters=dict"] = set_params_dict
+
     # definition changes that leave the ODE right-hand side untouched (a declared but still unused quantity)
     def add_param_only(m, sh):
         m.param_list = ["k"]
@@ -108,7 +112,13 @@ def history_unit(hists, idx):
             vals = {p: c.real("%s_v0_%s" % (tag, p)) for p in sh.params}
             m.parameters = [vals[p] for p in sh.params]
 
-            def rebind(step):
+            def rebind(step, partial_dict=False):
+                if partial_dict:
+                    # a partial update BY NAME of the first parameter only (after the positional assignment above)
+                    p0 = sh.params[0]
+                    vals[p0] = c.real("%s_v%d_%s" % (tag, step, p0))
+                    m.parameters = {p0: vals[p0]}
+                    return
                 for p in sh.params:
                     vals[p] = c.real("%s_v%d_%s" % (tag, step, p))
                 m.parameters = [vals[p] for p in sh.params]
@@ -118,6 +128,8 @@ def history_unit(hists, idx):
                 M[mu](m, sh)
                 if mu in ("parameters=", "add_param+event", "add_param_only"):
                     rebind(k + 1)
+                if mu == "parameters=dict":
+                    rebind(k + 1, partial_dict=True)
                 if k < len(muts) - 1:
                     for f in mid:
                         getattr(m, f)(x, t)
@@ -163,7 +175,9 @@ def histories(tier):
             H.append(((f,), (mu,), (), (f,), True))
             if tier != "quick":
                 H.append((tuple(EVALS), (mu,), (), tuple(EVALS), True))
-    pairs = [(a, b) for a in ms for b in ms if a != b]
+    # two mutators that declare the same new name cannot be combined in one history
+    clash = [{"add_param+event", "add_param_only"}, {"add_derived+event", "add_derived_only"}]
+    pairs = [(a, b) for a in ms for b in ms if a != b and {a, b} not in clash]
     if tier == "quick":
         pairs = pairs[::5]
     for (a, b) in pairs:
